@@ -158,7 +158,9 @@ impl<'a> ExpressionEvaluator<'a> {
                 }])
             }
             BoundExpression::Exists { query, negated } => {
-                todo!("Subquery evaluation is not yet implemented")
+                Err(EvaluationError::InvalidExpression(
+                    "sub-queries are not supported".to_string(),
+                ))
             }
             BoundExpression::InList {
                 expr,
@@ -193,14 +195,18 @@ impl<'a> ExpressionEvaluator<'a> {
                 Ok(vec![DataType::Bool(Bool(*negated))])
             }
             BoundExpression::Subquery { query, result_type } => {
-                todo!("Subquery evaluation is not yet implemented")
+                Err(EvaluationError::InvalidExpression(
+                    "sub-queries are not supported".to_string(),
+                ))
             }
             BoundExpression::InSubquery {
                 expr,
                 query,
                 negated,
             } => {
-                todo!("Subquery evaluation is not yet implemented")
+                Err(EvaluationError::InvalidExpression(
+                    "sub-queries are not supported".to_string(),
+                ))
             }
             BoundExpression::Function {
                 func,
@@ -294,7 +300,10 @@ impl<'a> ExpressionEvaluator<'a> {
                     }
                 }
             }
-            _ => unreachable!("Should not reach here when calling the evaluator"),
+            // CASE expressions and aggregate references (HAVING) are not implemented: an error, not a panic in the worker
+            other => Err(EvaluationError::InvalidExpression(format!(
+                "unsupported expression: {other:?}"
+            ))),
         }
     }
 
